@@ -75,7 +75,9 @@ fn main() {
     }
     vharness::engine::install_quiet_panic_hook();
     // Everything runs on a thread with a large stack: the reference matcher recurses per character.
-    let stack = if cfg!(miri) { 64 << 20 } else { 1 << 30 };
+    // C07 runs with the stack of an ordinary main thread (8 MiB): stack exhaustion in the
+    // compiler is one of the events it looks for.
+    let stack = if cfg.check == "c07" { 8 << 20 } else if cfg!(miri) { 64 << 20 } else { 1 << 30 };
     let handle = std::thread::Builder::new()
         .stack_size(stack)
         .spawn(move || {
